@@ -42,7 +42,7 @@ func init() {
 	reg.Register(runner.Check{
 		ID:    "C15",
 		Level: "model_checking",
-		Rule: "stateless exploration (<=Ds scheduling deviations per scenario; a deviation is a switch to another goroutine at a synchronisation point or, in the two-session and write-then-close scenarios and in every schedule scenario of the thorough tier, a goroutine held up for 20 ms / 2 s before an atomic write) of close/stop scenarios on the real client and server, TCP and UDP: blocked reader at each end (one or two sessions on the client; the second session must keep working) x closer {client conn, server conn, both, client Stop, server Stop, network loss then Close} x idle period before the close {0, 3 s, 7 s, 70 s}; blocked writer under back-pressure x closer; 24 idle proxy connections of one client then Stop at either end; client Stop while a dial is in flight (the connection takes 50 ms to establish; Stop 10 / 49 / 51 / 60 ms after the dial began); repeated Close; write then Close without any Read (0-RTT client, and server); UDP one-way black hole until the sender's retransmission limit; deadline scripts (deadline then several Reads / Writes, deadline moved, cleared, in the past) at both ends; " +
+		Rule: "stateless exploration (<=Ds scheduling deviations per scenario; a deviation is a switch to another goroutine at a synchronisation point or, in the two-session and write-then-close scenarios and in every schedule scenario of the thorough tier, a goroutine held up for 20 ms / 2 s before an atomic write) of close/stop scenarios on the real client and server, TCP and UDP: blocked reader at each end (one or two sessions on the client; the second session must keep working) x closer {client conn, server conn, both, client Stop, server Stop, network loss then Close} x idle period before the close {0, 3 s, 7 s, 70 s}; blocked writer under back-pressure x closer; 24 idle proxy connections of one client then Stop at either end; client Stop while a dial is in flight (the connection takes 50 ms to establish; Stop 10 / 49 / 51 / 60 ms after the dial began); repeated Close; write then Close without any Read (0-RTT client, and server); Read on a 0-RTT client connection before any Write x {deadline, Close, client Stop}; UDP one-way black hole until the sender's retransmission limit; deadline scripts (deadline then several Reads / Writes, deadline moved, cleared, in the past) at both ends; " +
 			"oracles: every call returns; a call blocked when the closer acted returns within 20 s of it; Close/Stop return within 20 s; a Read/Write that cannot complete returns a timeout no later than 1 s after the deadline in force; 30 s after both ends were shut down no goroutine started by mieru is alive. evaluations = executions",
 		Assumptions: []string{
 			"'promptly (seconds, not the idle-read timeout)' is judged as <= 20 s of virtual time; the idle-read timeouts are 60-120 s",
@@ -262,8 +262,11 @@ func run1(p params, ctl *explore.Ctl) explore.Result {
 		cfg.C2S = simnet.StreamOpts{Capacity: 65536}
 		cfg.S2C = simnet.StreamOpts{Capacity: 65536}
 	}
-	if p.Kind == "write-then-close" {
+	if p.Kind == "write-then-close" || p.Kind == "early-read" {
 		cfg.NoWait = true // 0-RTT: the client performs no Read during the handshake
+	}
+	if p.Kind == "early-read" {
+		cfg.Horizon = 200 * time.Second
 	}
 	if p.Kind == "one-way-blackhole" {
 		cfg.Horizon = 400 * time.Second
@@ -315,6 +318,17 @@ func run1(p params, ctl *explore.Ctl) explore.Result {
 			if conn != nil {
 				r.do("Close(conn returned by the dial)", func() (int, error) { return 0, conn.Close() }).within = prompt
 			}
+			r.do("Stop(server, final)", func() (int, error) { return 0, w.Srv.Stop() }).within = prompt
+			shutdownDone = true
+			armed = false
+			vsched.Sleep(grace)
+			leaked = census(w.S)
+			return
+		}
+		if p.Kind == "early-read" {
+			armed = true
+			earlyRead(r, p)
+			r.do("Stop(client, final)", func() (int, error) { return 0, w.Cli.Stop() }).within = prompt
 			r.do("Stop(server, final)", func() (int, error) { return 0, w.Srv.Stop() }).within = prompt
 			shutdownDone = true
 			armed = false
@@ -558,6 +572,45 @@ func writeThenClose(r *run, p params) {
 		r.do("Write(client conn, then close without reading)", func() (int, error) { return cc.Write(make([]byte, size)) }).within = prompt
 		at = r.now()
 		r.do("Close(client conn, right after the write)", func() (int, error) { return 0, cc.Close() }).within = prompt
+	}
+	g.Wait()
+}
+
+// earlyRead: a 0-RTT client connection (the request rides on the first Write) on which the
+// application reads before it has written anything. The Read must honour a deadline, and a close
+// of the connection or a stop of the client must release it.
+func earlyRead(r *run, p params) {
+	w := r.w
+	cc, err := w.Dial(1000)
+	if err != nil {
+		r.v.Add("setup", "dial: %v", err)
+		return
+	}
+	var at int64
+	var g world.Group
+	buf := make([]byte, 16)
+	switch p.Closer {
+	case "deadline":
+		dl := r.now() + int64(2*time.Second)
+		cc.SetReadDeadline(w.S.Epoch.Add(time.Duration(dl)))
+		c := r.bg(&g, "Read(client conn, before any write)", "client", func(c *call) { c.deadline, c.wantTO, c.nthSinceSet = dl, true, 1 }, func() (int, error) { return cc.Read(buf) })
+		_ = c
+		vsched.Sleep(30 * time.Second)
+		at = r.now()
+		r.do("Close(client conn, final)", func() (int, error) { return 0, cc.Close() }).within = prompt
+	case "client-conn":
+		r.bg(&g, "Read(client conn, before any write)", "client", func(c *call) { c.releasedBy = &at }, func() (int, error) { return cc.Read(buf) })
+		vsched.Sleep(p.Idle + 500*time.Millisecond)
+		at = r.now()
+		r.do("Close(client conn)", func() (int, error) { return 0, cc.Close() }).within = prompt
+	case "client-stop":
+		r.bg(&g, "Read(client conn, before any write)", "client", func(c *call) { c.releasedBy = &at }, func() (int, error) { return cc.Read(buf) })
+		vsched.Sleep(p.Idle + 500*time.Millisecond)
+		at = r.now()
+		r.do("Stop(client)", func() (int, error) { return 0, w.Cli.Stop() }).within = prompt
+		// give the blocked call the time it is allowed, then let the application give up on the connection
+		vsched.Sleep(prompt + time.Second)
+		r.do("Close(client conn, final)", func() (int, error) { return 0, cc.Close() }).within = prompt
 	}
 	g.Wait()
 }
@@ -831,6 +884,12 @@ func units(tier string) []runner.Unit {
 		for _, v := range []string{"client-writes", "client-writes-large", "server-writes", "server-writes-large"} {
 			add(params{UDP: udp, Kind: "write-then-close", Closer: v}, 1)
 			add(params{UDP: udp, Kind: "write-then-close", Closer: v, Ds: 1, Stalls: true}, 10)
+		}
+		for _, cl := range []string{"deadline", "client-conn", "client-stop"} {
+			add(params{UDP: udp, Kind: "early-read", Closer: cl}, 1)
+			if cl == "client-conn" { // the other two fail in every schedule (known findings): one execution says it all
+				add(params{UDP: udp, Kind: "early-read", Closer: cl, Ds: 1}, 2)
+			}
 		}
 		if udp {
 			add(params{UDP: udp, Kind: "one-way-blackhole", Closer: "client-to-server-lost"}, 4)
